@@ -1387,6 +1387,9 @@ void femm::FemmProblem::enforcePSLG(double tol)
                 if(newnodelist[i]->y>p1.im) p1.im = newnodelist[i]->y;
             }
             d = abs(p1-p0)*CLOSE_ENOUGH;
+            // all points coincide (e.g. one of two points was moved onto the other):
+            // a zero tolerance would merge nothing
+            if (d==0) d = 1.e-08;
         }
     }
 
